@@ -977,6 +977,13 @@ impl Parser {
             result.op = Some(Op::negate(op));
         }
 
+        // De Morgan: the operands are negated above, the connective has to be swapped as well
+        result.logical_op = match expr.logical_op {
+            Some(LogicalOp::And) => Some(LogicalOp::Or),
+            Some(LogicalOp::Or) => Some(LogicalOp::And),
+            None => None,
+        };
+
         if let Some(right) = &expr.right {
             result.right = Some(Box::from(Self::negate_expr_op(right)));
         }
